@@ -185,9 +185,12 @@ def _meaning(ctx, gen, call, data, env, args, a, z):
             if call == "zone_temp":
                 k = c["value"]
                 D = args["D"]
-                return sym_and(*base, keep_power, c["setting_code"] == 5, c["method_code"] == 3, k * D - args["j"] <= D // 2, args["j"] - k * D <= D // 2)
+                # the control method bits are judged separately (KF-C04-2): the frame also says "set to temperature control"
+                _method_obligation(ctx, keep_method, c["method_code"], call, 3)
+                return sym_and(*base, keep_power, c["setting_code"] == 5, k * D - args["j"] <= D // 2, args["j"] - k * D <= D // 2)
             if call == "zone_damper":
-                return sym_and(*base, keep_power, c["setting_code"] == 4, c["method_code"] == 2, c["value"] == args["pct"])
+                _method_obligation(ctx, keep_method, c["method_code"], call, 2)
+                return sym_and(*base, keep_power, c["setting_code"] == 4, c["value"] == args["pct"])
     else:
         if len(data) != 12:
             return False
@@ -234,6 +237,16 @@ def _meaning(ctx, gen, call, data, env, args, a, z):
             if call == "zone_damper":
                 return sym_and(*base, keep_power, c["setting_code"] == 4, c["value"] == args["pct"])
     return False
+
+
+def _method_obligation(ctx, keep_method, method_code, call, switched_to):
+    """AT4 zone set-point / damper requests: 'marks every other attribute as keep' includes the zone's control method (an exposed
+    attribute). The AT4 client deliberately sends 'set to temperature / percentage control' along with the value (its source
+    says so; the AT5 client sends 'keep'). Recorded as KF-C04-2, not repaired: whether an AirTouch 4 console applies a value
+    while the zone is in the other control method is not documented, so switching back to 'keep' may stop the request from
+    having any effect. Any *other* method code is a violation."""
+    ctx.check(keep_method, "meaning", known=[("KF-C04-2", method_code == switched_to)],
+              detail={"call": call, "why": "control method bits are neither 'keep' nor the recorded switch"})
 
 
 def _half_step_tenths(K, j, lo10, hi10):
